@@ -59,6 +59,7 @@ pub fn fam_dispatch(r: &mut Rng) -> Vec<Prog> {
             main: t(if wide { "{ARG} w f" } else { "{ARG} f" }),
             args: args.clone(),
             generic_fn: None,
+        declared_ret: None,
         });
     }
     feats.clear();
@@ -148,6 +149,7 @@ pub fn fam_variable(r: &mut Rng) -> Vec<Prog> {
         main,
         args,
         generic_fn: None,
+        declared_ret: None,
     }]
 }
 
@@ -291,6 +293,7 @@ pub fn fam_generic(r: &mut Rng) -> Vec<Prog> {
         main: t("{ARG} g"),
         args,
         generic_fn: Some("g".into()),
+        declared_ret: None,
     }]
 }
 
@@ -398,6 +401,7 @@ pub fn fam_tail(r: &mut Rng) -> Vec<Prog> {
         main: t("{ARG} f"),
         args: args.into_iter().map(|s| Arg { src: s, aligned_src: None, note: String::new() }).collect(),
         generic_fn: None,
+        declared_ret: None,
     }]
 }
 
@@ -473,6 +477,14 @@ pub fn fam_partial(r: &mut Rng) -> Vec<Prog> {
         let mut front = base.clone();
         front.insert(0, (Some("zz".into()), GVal::Bin(vec![9])));
         args.push(Arg { src: GVal::Tup(nm.clone(), front).src(), aligned_src: Some(aligned.src()), note: "partial-misaligned".into() });
+        // a field of the partial type is missing: must be rejected (is_compatible, tuple vs partial)
+        if !base.is_empty() {
+            let mut missing = base.clone();
+            let k = g.r.usize(missing.len());
+            missing.remove(k);
+            missing.push((Some("zz".into()), GVal::Int(9)));
+            args.push(Arg { src: GVal::Tup(nm.clone(), missing).src(), aligned_src: None, note: "partial-missing-field".into() });
+        }
         if base.len() > 1 {
             let mut rev = base.clone();
             rev.reverse();
@@ -490,6 +502,7 @@ pub fn fam_partial(r: &mut Rng) -> Vec<Prog> {
         main: t("{ARG} g"),
         args,
         generic_fn: None,
+        declared_ret: None,
     }]
 }
 
@@ -615,6 +628,7 @@ pub fn fam_return(r: &mut Rng) -> Vec<Prog> {
         main: t(if wide { "{ARG} w f" } else { "{ARG} f" }),
         args,
         generic_fn: None,
+        declared_ret: Some(declared.src_n(true)),
     }]
 }
 
@@ -630,25 +644,50 @@ pub fn fam_hof(r: &mut Rng) -> Vec<Prog> {
             g.feats.insert("hof:function-subtyping".into());
             let pd = if g.r.chance(1, 2) { g.leaf_ty() } else { g.union_ty(0) };
             let rd = if g.r.chance(1, 2) { g.leaf_ty() } else { g.union_ty(0) };
-            // the function actually passed
-            let ph = match g.r.below(4) {
-                0 => pd.clone(),
-                1 => GTy::Union(vec![pd.clone(), tag("Z")]), // accepts more: fine
-                _ => near_miss(&pd, &mut g),                 // accepts something else: must be rejected
+            // the function actually passed: its parameter may be wider (fine), narrower (must be
+            // rejected: `run` calls it with a value of the dropped variant) or a near miss; its
+            // result may be narrower (fine), wider (must be rejected: it returns a value of the
+            // extra variant) or a near miss
+            let mut av = lit(&mut g, &pd);
+            let ph = match (g.r.below(5), &pd) {
+                (0, _) => pd.clone(),
+                (1, _) => GTy::Union(vec![pd.clone(), tag("Z")]),
+                (2..=3, GTy::Union(vs)) if vs.len() >= 2 => {
+                    g.feats.insert("hof:narrower-parameter".into());
+                    let k = g.r.usize(vs.len());
+                    av = lit(&mut g, &vs[k]);
+                    let mut rest = vs.clone();
+                    rest.remove(k);
+                    if rest.len() == 1 { rest[0].clone() } else { GTy::Union(rest) }
+                }
+                _ => near_miss(&pd, &mut g),
             };
-            let rh = match g.r.below(4) {
+            let mut rv_override: Option<GVal> = None;
+            let rh = match g.r.below(5) {
                 0 => rd.clone(),
                 1 => match &rd {
-                    GTy::Union(vs) => vs[0].clone(), // returns less: fine
+                    GTy::Union(vs) => vs[0].clone(),
                     o => o.clone(),
                 },
+                2..=3 => {
+                    g.feats.insert("hof:wider-result".into());
+                    let extra = if rd == GTy::Bin { GTy::Int } else { GTy::Bin };
+                    let extra = match &rd {
+                        GTy::Union(vs) if vs.contains(&extra) => tag("Z"),
+                        _ => extra,
+                    };
+                    rv_override = Some(lit(&mut g, &extra));
+                    GTy::Union(vec![rd.clone(), extra])
+                }
                 _ => near_miss(&rd, &mut g),
             };
             // h demands its parameter type and returns a literal of its result type
-            let rv = lit(&mut g, &rh);
+            let rv = match rv_override {
+                Some(v) => v,
+                None => lit(&mut g, &rh),
+            };
             let use_p = g.demanding_use(t("$"), &ph.clone(), 1);
             let h = cat(vec![t(&format!("#{} {{ ", ph.param_src())), use_p, t(&format!(" =u, {} }}", rv.src()))]);
-            let av = lit(&mut g, &pd);
             let use_r = g.demanding_use(t("res"), &rd.clone(), 1);
             let run = cat(vec![
                 t(&format!("#[#{} -> {}] {{ =[k] => {} k =res, W[", pd.src_n(true), rd.src_n(true), av.src())),
@@ -664,6 +703,7 @@ pub fn fam_hof(r: &mut Rng) -> Vec<Prog> {
                 main: t("[&h] run"),
                 args: vec![Arg { src: String::new(), aligned_src: None, note: String::new() }],
                 generic_fn: None,
+        declared_ret: None,
             }]
         }
         1 => {
@@ -697,6 +737,7 @@ pub fn fam_hof(r: &mut Rng) -> Vec<Prog> {
                 main: t(&format!("{{ARG}} mk =h, {} h", a2.src())),
                 args,
                 generic_fn: None,
+        declared_ret: None,
             }]
         }
         _ => {
@@ -734,6 +775,7 @@ pub fn fam_hof(r: &mut Rng) -> Vec<Prog> {
                     Arg { src: "B".into(), aligned_src: None, note: String::new() },
                 ],
                 generic_fn: None,
+        declared_ret: None,
             }]
         }
     }
@@ -800,6 +842,7 @@ pub fn fam_repeat(r: &mut Rng) -> Vec<Prog> {
         main: t(if wide { "{ARG} w f" } else { "{ARG} f" }),
         args,
         generic_fn: None,
+        declared_ret: None,
     }]
 }
 
@@ -837,11 +880,147 @@ pub fn fam_spawn(r: &mut Rng) -> Vec<Prog> {
         main: t("p = {ARG} @f, !p"),
         args,
         generic_fn: None,
+        declared_ret: None,
     }]
 }
 
+/// Programs sitting exactly on the documented carve-outs of complement narrowing
+/// (`prevents_complement_narrowing`: literal / pin / partial type check; and
+/// `pattern_constrains_recursive_field`): an earlier branch fails for a reason the complement
+/// cannot express, a later branch uses the scrutinee as if the whole variant were excluded.
+pub fn fam_carveout(r: &mut Rng) -> Vec<Prog> {
+    let mut g = G::new(r);
+    match g.r.below(3) {
+        0 => {
+            // partial (type) check on a union-typed field of one variant
+            g.feats.insert("carveout:partial-type-check".into());
+            let l1 = g.leaf_ty();
+            let mut l2 = g.leaf_ty();
+            if l2 == l1 {
+                l2 = if l1 == GTy::Int { GTy::Bin } else { GTy::Int };
+            }
+            let a = tup(Some("A"), vec![(Some("a"), GTy::Union(vec![l1.clone(), l2.clone()])), (Some("b"), GTy::Int)]);
+            let other = match g.r.below(3) {
+                0 => GTy::Int,
+                1 => tup(Some("B"), vec![(Some("c"), GTy::Bin)]),
+                _ => tag("C"),
+            };
+            let ty = GTy::Union(vec![a.clone(), other.clone()]);
+            let l1pat = l1.src();
+            let first = match g.r.below(4) {
+                0 => format!("=(a: {l1pat}) => R1"),
+                1 => format!("=A(a: {l1pat}) => R1"),
+                2 => format!("=A(a: {l1pat}, b: _) => R1"),
+                _ => format!("=A[a: {l1pat}, b: _] => R1"),
+            };
+            let u = g.demanding_use(t("x"), &other, 1);
+            let second = cat(vec![t("=x => R2["), u, t("]")]);
+            let f = cat(vec![t(&format!("#{} ", ty.param_src())), Node::Block(vec![t(&first), second])]);
+            let w = t(&format!("#{} {{ $ }}", ty.param_src()));
+            let vals = g.values(&ty, 2);
+            let args = pick_args(g.r, vals, 8);
+            let wide = g.r.chance(1, 2);
+            vec![Prog {
+                family: "carveout",
+                features: g.feats.clone(),
+                aliases: vec![],
+                guards: vec![],
+                defs: vec![("f".into(), f), ("w".into(), w)],
+                main: t(if wide { "{ARG} w f" } else { "{ARG} f" }),
+                args,
+                generic_fn: None,
+        declared_ret: None,
+            }]
+        }
+        1 => {
+            // nested patterns over a recursive type: later branches must keep their run-time checks
+            g.feats.insert("carveout:recursive-field-constraint".into());
+            let elem = if g.r.chance(1, 2) { GTy::Int } else { GTy::Bin };
+            let use_tree = g.r.chance(2, 3);
+            let (ty, pool): (GTy, Vec<&str>) = if use_tree {
+                (
+                    GTy::Tree(Box::new(elem.clone())),
+                    vec![
+                        "=Node[Node[Leaf[x], _], _] => R1[x]",
+                        "=Node[_, Node[_, Leaf[x]]] => R2[x]",
+                        "=Node[Node[_, _], Leaf[x]] => R3[x]",
+                        "=Node[Leaf[x], _] => R4[x]",
+                        "=Node[_, Leaf[x]] => R5[x]",
+                        "=Node[Leaf[x], Leaf[y]] => R6[x, y]",
+                        "=Leaf[x] => R7[x]",
+                        "=Node[Node[a, b], c] => R8",
+                    ],
+                )
+            } else {
+                (
+                    GTy::List(Box::new(elem.clone())),
+                    vec![
+                        "=Cons[_, Cons[_, Cons[x, _]]] => R1[x]",
+                        "=Cons[_, Cons[x, Nil]] => R2[x]",
+                        "=Cons[x, Nil] => R3[x]",
+                        "=Cons[x, Cons[y, _]] => R4[x, y]",
+                        "=Cons[x, z] => R5[x]",
+                        "=Nil => R6",
+                    ],
+                )
+            };
+            let mut idx: Vec<usize> = (0..pool.len()).collect();
+            g.r.shuffle(&mut idx);
+            let nb = 2 + g.r.usize(3);
+            let mut branches: Vec<Node> = idx.iter().take(nb).map(|i| t(pool[*i])).collect();
+            if g.r.chance(1, 2) {
+                branches.push(t("R9"));
+            }
+            let f = cat(vec![t(&format!("#{} ", ty.param_src())), Node::Block(branches)]);
+            let w = t(&format!("#{} {{ $ }}", ty.param_src()));
+            let vals = g.values(&ty, 3);
+            let args = pick_args(g.r, vals, 10);
+            let aliases = g.aliases_for(&[&ty]);
+            let wide = g.r.chance(1, 2);
+            vec![Prog {
+                family: "carveout",
+                features: g.feats.clone(),
+                aliases,
+                guards: vec![],
+                defs: vec![("f".into(), f), ("w".into(), w)],
+                main: t(if wide { "{ARG} w f" } else { "{ARG} f" }),
+                args,
+                generic_fn: None,
+        declared_ret: None,
+            }]
+        }
+        _ => {
+            // pin against a variable, then the complement
+            g.feats.insert("carveout:pin".into());
+            let leaf = if g.r.chance(1, 2) { GTy::Int } else { GTy::Bin };
+            let other = tup(Some("A"), vec![(Some("a"), GTy::Int)]);
+            let ty = GTy::Union(vec![leaf.clone(), other.clone()]);
+            let pinv = lit(&mut g, &leaf);
+            let u = g.demanding_use(t("x"), &other, 1);
+            let body = match g.r.below(2) {
+                0 => cat(vec![t(&format!("{{ y = {}, $ {{ | =&y => R1 | =x => R2[", pinv.src())), u, t("] } }")]),
+                _ => cat(vec![t(&format!("{{ y = {}, x = $, {{ | x =&y => R1 | R2[", pinv.src())), u, t("] } }")]),
+            };
+            let f = cat(vec![t(&format!("#{} ", ty.param_src())), body]);
+            let vals = g.values(&ty, 1);
+            let args = pick_args(g.r, vals, 6);
+            vec![Prog {
+                family: "carveout",
+                features: g.feats.clone(),
+                aliases: vec![],
+                guards: vec![],
+                defs: vec![("f".into(), f)],
+                main: t("{ARG} f"),
+                args,
+                generic_fn: None,
+        declared_ret: None,
+            }]
+        }
+    }
+}
+
 pub fn generate(r: &mut Rng) -> Vec<Prog> {
-    match r.below(30) {
+    match r.below(34) {
         0..=7 => fam_dispatch(r),
         8..=11 => fam_variable(r),
         12..=15 => fam_generic(r),
@@ -850,6 +1029,7 @@ pub fn generate(r: &mut Rng) -> Vec<Prog> {
         20..=22 => fam_return(r),
         23..=25 => fam_hof(r),
         26..=27 => fam_repeat(r),
-        _ => fam_spawn(r),
+        28..=29 => fam_spawn(r),
+        _ => fam_carveout(r),
     }
 }
